@@ -1,7 +1,7 @@
 (* C10 - wedge, geometric product, meet.  Pinned theorems only. *)
 From Coq Require Import ZArith List Bool Reals Lra.
 From Flocq Require Import Core BinarySingleNaN.
-Require Import GV.FloatBase GV.FloatLemmas GV.AngleM GV.AngleProofs GV.GeonumM GV.GeonumProofs GV.TraitsM GV.NewProofs GV.CtorProofs GV.ClosureProofs GV.PiBounds GV.TrigProofs GV.DotValue GV.DistValue GV.DirProofs GV.SymProofs GV.SwapProofs.
+Require Import GV.FloatBase GV.FloatLemmas GV.AngleM GV.AngleProofs GV.GeonumM GV.GeonumProofs GV.TraitsM GV.NewProofs GV.CtorProofs GV.ClosureProofs GV.PiBounds GV.TrigProofs GV.DotValue GV.DistValue GV.DirProofs GV.SymProofs GV.SwapProofs GV.CommProofs.
 Open Scope R_scope.
 
 Theorem C10_wedge : forall (L : libm) a b,
@@ -73,3 +73,14 @@ Theorem C10_swap_orientation : forall (L : libm) (u : R) a b, sin_acc L u ->
   steps_to (ang (wedge L a b)) (ang (wedge L b a)) 2 \/ steps_to (ang (wedge L b a)) (ang (wedge L a b)) 2.
 Proof. exact wedge_swap_orientation. Qed.
 Print Assumptions C10_swap_orientation.
+
+(* the Lagrange identity |a.b|^2 + |a^b|^2 = |a|^2 |b|^2 up to the value tolerances *)
+Theorem C10_lagrange : forall (L : libm) (u : R) a b, cos_acc L u -> sin_acc L u -> u <= / 1000 ->
+  canonp (rem (ang a)) -> canonp (rem (ang b)) -> (0 <= blade (ang a))%Z -> (0 <= blade (ang b))%Z ->
+  fin (dot_value L a b) -> fin (mag (wedge L a b)) ->
+  let P := R_ (mag a) * R_ (mag b) in
+  let e := Rabs P * (u + 10002 / 100000000000000) + bpow radix2 (-1073) in
+  Rabs (R_ (dot_value L a b) * R_ (dot_value L a b) + R_ (mag (wedge L a b)) * R_ (mag (wedge L a b)) - P * P)
+    <= 2 * e * (2 * Rabs P + e).
+Proof. exact lagrange. Qed.
+Print Assumptions C10_lagrange.
